@@ -144,15 +144,31 @@ def jsonify_paths(chk: Check, repo: Repo) -> None:
 
 
 def codec_tools(chk: Check, repo: Repo) -> None:
+    from ..astx import inline_locals
     enc = repo.func(TOOLS, "encode_dpt_payload")
     dec = repo.func(TOOLS, "decode_dpt_payload")
     chk.unit(enc); chk.unit(dec)
-    es = ast.unparse(enc.node)
-    ok = "DPTBase.get_dpt(request.value_type)" in es and any(call_name(c).endswith(".to_knx") and ast.unparse(c.args[0]) == "request.value" for c in calls(enc.node))
-    chk.ob("encode-tool-uses-the-type's-own-encoder", enc.site(), ok, "encode_dpt_payload: transcoder = DPTBase.get_dpt(request.value_type); transcoder.to_knx(request.value)", key="tool|encode")
-    ds = ast.unparse(dec.node)
-    ok = "DPTBase.get_dpt(request.value_type)" in ds and "transcoder.payload_type is DPTBinary" in ds and any(call_name(c) == "_jsonify" for c in calls(dec.node)) and any(call_name(c).endswith(".from_knx") for c in calls(dec.node))
-    chk.ob("decode-tool-uses-the-type's-own-decoder", dec.site(), ok, "decode_dpt_payload builds DPTBinary / DPTArray per the type's payload_type and returns _jsonify(transcoder.from_knx(raw))", key="tool|decode")
+
+    def transcoders(f) -> set[str]:
+        rq = f.node.args.args[0].arg
+        return {n.targets[0].id for n in walk_local(f.node) if isinstance(n, ast.Assign) and len(n.targets) == 1 and isinstance(n.targets[0], ast.Name) and isinstance(n.value, ast.Call) and call_name(n.value) == "DPTBase.get_dpt" and [ast.unparse(a) for a in n.value.args] == [f"{rq}.value_type"]}
+    te, rq_e = transcoders(enc), enc.node.args.args[0].arg
+    ok = len(te) == 1 and any(isinstance(c.func, ast.Attribute) and c.func.attr == "to_knx" and isinstance(c.func.value, ast.Name) and c.func.value.id in te and [ast.unparse(a) for a in c.args] == [f"{rq_e}.value"] for c in calls(enc.node))
+    chk.ob("encode-tool-uses-the-type's-own-encoder", enc.site(), ok, "encode_dpt_payload: <transcoder> = DPTBase.get_dpt(request.value_type); <transcoder>.to_knx(request.value)", key="tool|encode")
+    td = transcoders(dec)
+    ptype = any(isinstance(n, ast.Compare) and len(n.ops) == 1 and isinstance(n.ops[0], (ast.Is, ast.Eq)) and isinstance(n.left, ast.Attribute) and n.left.attr == "payload_type" and isinstance(n.left.value, ast.Name) and n.left.value.id in td and ast.unparse(n.comparators[0]) == "DPTBinary" for n in ast.walk(dec.node))
+    res = [c for c in calls(dec.node) if call_name(c) == "DecodeDptPayloadResult"]
+    val = next((k.value for c in res for k in c.keywords if k.arg == "value"), None)
+    vin = inline_locals(dec.node, val) if val is not None else None
+    jz = isinstance(vin, ast.Call) and call_name(vin) == "_jsonify" and len(vin.args) == 1 and isinstance(vin.args[0], ast.Call) and isinstance(vin.args[0].func, ast.Attribute) and vin.args[0].func.attr == "from_knx"
+    recv_ok = False
+    if jz:
+        r0 = vin.args[0].func.value
+        r0 = r0 if isinstance(r0, ast.Name) else None
+        # the receiver was inlined to DPTBase.get_dpt(...) when single-assigned: accept either form
+        recv_ok = (r0 is not None and r0.id in td) or ast.unparse(vin.args[0].func.value) == f"DPTBase.get_dpt({dec.node.args.args[0].arg}.value_type)"
+    ok = len(td) == 1 and ptype and jz and recv_ok
+    chk.ob("decode-tool-uses-the-type's-own-decoder", dec.site(), ok, "decode_dpt_payload builds DPTBinary / DPTArray per the type's payload_type and returns _jsonify(<transcoder>.from_knx(raw))", key="tool|decode")
 
 
 def lin(e: ast.AST):
@@ -194,11 +210,16 @@ def constraints(e: ast.AST) -> set:
 
 
 def pagination(chk: Check, repo: Repo) -> None:
+    from ..astx import inline_locals
     f = repo.func(TOOLS, "_paginate")
     chk.unit(f)
     items, limit, offset = (a.arg for a in f.node.args.args[:3])
-    asg = {ast.unparse(n.targets[0]): n.value for n in walk_local(f.node) if isinstance(n, ast.Assign) and len(n.targets) == 1}
-    win, lr = asg.get("window"), asg.get("limit_reached")
+    rets = [n for n in walk_local(f.node) if isinstance(n, ast.Return)]
+    win = lr = None
+    if len(rets) == 1 and isinstance(rets[0].value, ast.Tuple) and len(rets[0].value.elts) == 2:
+        # what is returned, with locals inlined: (page, limit reached)
+        win, lr = (inline_locals(f.node, e) for e in rets[0].value.elts)
+
     def is_page(sl: ast.AST, bounded: bool) -> bool:
         if not (isinstance(sl, ast.Subscript) and ast.unparse(sl.value) == items and isinstance(sl.slice, ast.Slice) and sl.slice.step is None and sl.slice.lower is not None):
             return False
@@ -207,23 +228,26 @@ def pagination(chk: Check, repo: Repo) -> None:
         if not bounded:
             return sl.slice.upper is None
         return sl.slice.upper is not None and lin(sl.slice.upper) == lin(ast.Name(id=offset, ctx=ast.Load())) + lin(ast.Name(id=limit, ctx=ast.Load()))
-    ok_w = (isinstance(win, ast.IfExp) and constraints(win.test) == constraints(ast.parse(f"{limit} >= 0", mode="eval").body) and is_page(win.body, True) and is_page(win.orelse, False)) or is_page(win, True)
-    chk.ob("page-is-the-slice-offset-limit", f.site(), ok_w, f"window = {ast.unparse(win) if win is not None else '?'}", key="page|window")
+    ok_w = win is not None and ((isinstance(win, ast.IfExp) and constraints(win.test) == constraints(ast.parse(f"{limit} >= 0", mode="eval").body) and is_page(win.body, True) and is_page(win.orelse, False)) or is_page(win, True))
+    chk.ob("page-is-the-slice-offset-limit", f.site(), ok_w, f"page = {ast.unparse(win) if win is not None else '?'}", key="page|window")
     ok_l = lr is not None and constraints(lr) == constraints(ast.parse(f"0 <= {limit} < len({items}) - {offset}", mode="eval").body)
-    chk.ob("limit-reached-iff-items-remain", f.site(), ok_l, f"limit_reached = {ast.unparse(lr) if lr is not None else '?'} (true exactly when the slice stopped before the end)", key="page|limit_reached")
+    chk.ob("limit-reached-iff-items-remain", f.site(), ok_l, f"limit reached = {ast.unparse(lr) if lr is not None else '?'} (true exactly when the slice stopped before the end)", key="page|limit_reached")
     ld = repo.func(TOOLS, "list_dpts")
     chk.unit(ld)
-    src = ast.unparse(ld.node)
+    fp = ld.node.args.args[0].arg
     call = [c for c in calls(ld.node) if call_name(c) == "_paginate"]
-    ok = len(call) == 1 and [ast.unparse(a) for a in call[0].args] == ["matches", "filters.limit", "filters.offset"]
-    chk.ob("page-is-the-slice-offset-limit", ld.site(), ok, "list_dpts pages `matches` by filters.limit / filters.offset", key="page|call")
+    lst = call[0].args[0].id if len(call) == 1 and call[0].args and isinstance(call[0].args[0], ast.Name) else None
+    ok = lst is not None and [ast.unparse(a) for a in call[0].args[1:]] == [f"{fp}.limit", f"{fp}.offset"]
+    chk.ob("page-is-the-slice-offset-limit", ld.site(), ok, f"list_dpts pages `{lst}` by {fp}.limit / {fp}.offset", key="page|call")
     # the paged list does not depend on offset / limit and is totally ordered
-    deps = [n for n in walk_local(ld.node) if isinstance(n, ast.Assign) and ast.unparse(n.targets[0]) == "matches"]
+    deps = [n for n in walk_local(ld.node) if isinstance(n, ast.Assign) and ast.unparse(n.targets[0]) == lst]
     dep_ok = len(deps) == 1 and not any(isinstance(x, ast.Attribute) and x.attr in ("offset", "limit") for x in ast.walk(deps[0].value))
-    sort_ok = any(isinstance(c.func, ast.Attribute) and c.func.attr == "sort" and ast.unparse(c.func.value) == "matches" for c in calls(ld.node))
-    chk.ob("paged-list-is-independent-of-the-page", ld.site(), dep_ok and sort_ok, "matches is built from the filters' main / text only and sorted by (main, sub) number before paging", key="page|independent")
+    sort_ok = any(isinstance(c.func, ast.Attribute) and c.func.attr == "sort" and ast.unparse(c.func.value) == lst for c in calls(ld.node)) or (len(deps) == 1 and isinstance(deps[0].value, ast.Call) and call_name(deps[0].value) == "sorted")
+    chk.ob("paged-list-is-independent-of-the-page", ld.site(), dep_ok and sort_ok, "the list is built from the filters' main / text only and sorted by (main, sub) number before paging", key="page|independent")
+    unp = [n for n in walk_local(ld.node) if isinstance(n, ast.Assign) and call and n.value is call[0] and isinstance(n.targets[0], ast.Tuple) and len(n.targets[0].elts) == 2 and all(isinstance(e, ast.Name) for e in n.targets[0].elts)]
+    wname, lname = (unp[0].targets[0].elts[0].id, unp[0].targets[0].elts[1].id) if unp else ("?", "?")
     nxt = [k.value for c in calls(ld.node) if call_name(c) == "DptListResult" for k in c.keywords if k.arg == "next_offset"]
-    ok = len(nxt) == 1 and isinstance(nxt[0], ast.IfExp) and ast.unparse(nxt[0].test) == "limit_reached" and isinstance(nxt[0].orelse, ast.Constant) and nxt[0].orelse.value is None and lin(nxt[0].body) == lin(ast.parse("filters.offset + len(window)", mode="eval").body)
+    ok = len(nxt) == 1 and isinstance(nxt[0], ast.IfExp) and ast.unparse(nxt[0].test) == lname and isinstance(nxt[0].orelse, ast.Constant) and nxt[0].orelse.value is None and lin(nxt[0].body) == lin(ast.parse(f"{fp}.offset + len({wname})", mode="eval").body)
     chk.ob("next-page-starts-where-this-one-ended", ld.site(), ok, f"next_offset = {ast.unparse(nxt[0]) if nxt else '?'}: pages [o, o+len) are adjacent and disjoint, so every type is listed exactly once", key="page|next")
 
 
